@@ -649,9 +649,12 @@ namespace awkward {
     if (identities_.get() != nullptr) {
       identities = identities_.get()->getitem_carry_64(carry);
     }
-    return std::make_shared<UnmaskedArray>(identities,
-                                           parameters_,
-                                           content_.get()->carry(carry, allow_lazy));
+    // a lazily carried content is an IndexedArray, which an option-type node
+    // must not contain directly: simplify
+    UnmaskedArray out(identities,
+                      parameters_,
+                      content_.get()->carry(carry, allow_lazy));
+    return out.simplify_optiontype();
   }
 
   int64_t
